@@ -990,6 +990,11 @@ def check_C16(ctx):
             rep.oracle_fail('a constructor %s an argument that the documented range %s: %s' % (
                 'accepted' if _rej(b.model[i]) else 'rejected',
                 'excludes' if _rej(b.model[i]) else 'includes', b.impl[i][:120]), b, [i])
+        elif b.status[i] == 'disagree' and b.impl[i].startswith('OK ') and b.model[i].startswith('OK '):
+            # accepted by both, but the object reports other parameters than it was given (n stored as the integer
+            # it denotes, base / name / operands as given: C16_ctor_nth, C16_ctor_base)
+            rep.oracle_fail('the constructed object reports %s but the documented result is %s' % (
+                b.impl[i][3:120], b.model[i][3:120]), b, [i])
         rep.stats['%s_%s' % (key[0], kind(b.impl[i]))] += 1
         rep.sample(b.lines[i] + '  =>  ' + b.impl[i])
         _ = st
@@ -1013,7 +1018,17 @@ def check_C18(ctx):
     lines = []
     for _ in range(n):
         pool = rng.sample([2, 3, 4, 5, 6], rng.randint(2, 5))
-        e = gen.rexpr(rng, rng.randint(3, 14), pool, p_const=0.15)
+        if len(pool) >= 3 and rng.random() < 0.25:
+            # two variables next to sub-trees that are == but spelled differently (1 against 1.0)
+            e = gen.twins(rng, pool, rng.randint(2, 6))
+            rep.stats['twin_expressions'] += 1
+            lines += ['DEXPR %d %s' % (w, sx.to_sx(e)) for w in sx.var_ids(e)]
+        elif rng.random() < 0.2:
+            # repeated operands and contributions whose floating-point sum is order-sensitive
+            e = gen.order_sensitive_sum(rng, pool)
+            rep.stats['order_sensitive_sums'] += 1
+        else:
+            e = gen.rexpr(rng, rng.randint(3, 14), pool, p_const=0.15)
         ids = sx.var_ids(e)
         if not ids:
             continue
